@@ -55,6 +55,36 @@ type c04Case struct {
 	Src  string   `json:"src"` // printed form (informational; recomputed by the judge)
 }
 
+// values of basic kinds whose types have a String method: concatenated (and printed) through that method
+type c04Rank int
+type c04Temp float64
+type c04Tag string
+type c04Flag bool
+
+func (l c04Rank) String() string { return fmt.Sprintf("L%d", int(l)) }
+func (t c04Temp) String() string { return fmt.Sprintf("%.1f deg", float64(t)) }
+func (t c04Tag) String() string  { return "#" + string(t) }
+func (f c04Flag) String() string {
+	if f {
+		return "on"
+	}
+	return "off"
+}
+
+func (v c04Var) stringer() (string, bool) {
+	switch v.Kind {
+	case "level":
+		return c04Rank(v.I).String(), true
+	case "temp":
+		return c04Temp(v.F).String(), true
+	case "tag":
+		return c04Tag(v.S).String(), true
+	case "flag":
+		return c04Flag(v.B).String(), true
+	}
+	return "", false
+}
+
 var c04IntKinds = []string{"int", "int8", "int16", "int32", "int64"}
 var c04UintKinds = []string{"uint", "uint8", "uint16", "uint32", "uint64"}
 
@@ -159,7 +189,11 @@ func (g *c04Gen) str(d int) *c04Expr {
 		return g.style(&c04Expr{Op: "tern", A: g.cond(d - 1), B: g.maybeProbe(g.str(d - 1)), C: g.maybeProbe(g.str(d - 1))})
 	default:
 		var r *c04Expr
-		switch g.n(0, 3, "concatRight") {
+		switch g.n(0, 4, "concatRight") {
+		case 4:
+			// a value whose type has a String method: what is appended is what printing it alone renders
+			r = g.addVar([]c04Var{{Kind: "level", I: 3}, {Kind: "temp", F: 1.5}, {Kind: "tag", S: "t"}, {Kind: "flag", B: true}, {Kind: "level", I: 0}, {Kind: "flag", B: false}}[g.n(0, 5, "stringerVar")])
+			r.Field = false
 		case 0:
 			r = g.num(d - 1)
 		case 1:
@@ -195,7 +229,14 @@ func (g *c04Gen) boolean(d int) *c04Expr {
 	case 0, 1, 2:
 		op := []string{"<", "<=", ">", ">="}[g.n(0, 3, "rel")]
 		if g.n(0, 1, "relLeaves") == 0 { // direct comparisons of equal/adjacent operands separate < from <=
-			return g.style(&c04Expr{Op: "bin", Bop: op, A: g.numLeaf(), B: g.numLeaf()})
+			a, b := g.numLeaf(), g.numLeaf()
+			switch g.n(0, 15, "nanOperand") { // a NaN compares false with everything, in either position
+			case 0:
+				a = g.addVar(c04Var{Kind: "nan"})
+			case 1:
+				b = g.addVar(c04Var{Kind: "nan"})
+			}
+			return g.style(&c04Expr{Op: "bin", Bop: op, A: a, B: b})
 		}
 		return g.style(&c04Expr{Op: "bin", Bop: op, A: g.num(d - 1), B: g.num(d - 1)})
 	case 3, 4:
@@ -485,6 +526,12 @@ func (ev *c04Eval) eval(e *c04Expr) c04Val {
 		return c04Val{k: 'b', b: e.Bool}
 	case "var":
 		v := ev.vars[e.Var]
+		if s, ok := v.stringer(); ok {
+			return c04Val{k: 's', s: s}
+		}
+		if v.Kind == "nan" {
+			return c04Val{k: 'f', f: math.NaN()}
+		}
 		switch {
 		case strings.HasPrefix(v.Kind, "int"):
 			return c04Val{k: 'i', i: v.I}
@@ -683,6 +730,16 @@ func (v c04Var) goValue() interface{} {
 		return float32(v.F)
 	case "string":
 		return v.S
+	case "level":
+		return c04Rank(v.I)
+	case "temp":
+		return c04Temp(v.F)
+	case "tag":
+		return c04Tag(v.S)
+	case "flag":
+		return c04Flag(v.B)
+	case "nan":
+		return math.NaN()
 	}
 	return v.B
 }
